@@ -204,33 +204,89 @@ def run(ctx, col: Collector):
                         and isinstance(nd.value, ast.Call) and isinstance(nd.value.func, ast.Attribute) and nd.value.func.attr == 'pop' \
                         and access_path(nd.value.func.value) == 'self.tables':
                     removed_vars.add(nd.targets[0].id)
-            for loop in [n for n in walk_no_nested(dele.node) if isinstance(n, ast.For)]:
-                it = loop.iter
+            def identity_keys(it, depth=0):
+                """True if the iterable `it` yields exactly the keys of self.table_dict whose value IS the removed table."""
+                if depth > 3:
+                    return False
+                if isinstance(it, ast.Call) and isinstance(it.func, ast.Name) and it.func.id in ('list', 'tuple', 'sorted') and len(it.args) == 1:
+                    return identity_keys(it.args[0], depth + 1)
                 if isinstance(it, (ast.ListComp, ast.GeneratorExp)) and len(it.generators) == 1:
                     g = it.generators[0]
-                    if access_path(g.iter.func.value if isinstance(g.iter, ast.Call) and isinstance(g.iter.func, ast.Attribute) else g.iter) == 'self.table_dict' \
-                            and isinstance(g.iter, ast.Call) and g.iter.func.attr == 'items' and isinstance(g.target, ast.Tuple) and len(g.target.elts) == 2:
-                        kname, vname = [e.id for e in g.target.elts if isinstance(e, ast.Name)]
+                    if isinstance(g.iter, ast.Call) and isinstance(g.iter.func, ast.Attribute) and g.iter.func.attr == 'items' \
+                            and access_path(g.iter.func.value) == 'self.table_dict' and isinstance(g.target, ast.Tuple) and len(g.target.elts) == 2 \
+                            and all(isinstance(e, ast.Name) for e in g.target.elts):
+                        kname, vname = [e.id for e in g.target.elts]
                         conds = [term(c, True) for c in g.ifs]
                         ident = any(c[0] == 'is' and vname in c[1:] and (set(c[1:]) - {vname}) <= removed_vars for c in conds)
-                        elt_ok = isinstance(it.elt, ast.Name) and it.elt.id == kname
-                        dels = [d for d in ast.walk(loop) if isinstance(d, ast.Delete) and any(isinstance(t, ast.Subscript) and access_path(t.value) == 'self.table_dict'
-                                                                                             and isinstance(loop.target, ast.Name) and norm(t.slice) == loop.target.id for t in d.targets)]
-                        if ident and elt_ok and dels and len(g.ifs) == 1:
-                            by_identity = True
+                        return ident and len(g.ifs) == 1 and isinstance(it.elt, ast.Name) and it.elt.id == kname
+                    return False
+                if isinstance(it, ast.Name):
+                    # a local list: assigned a comprehension, or filled by an explicit collect loop over self.table_dict.items()
+                    assigns = [n for n in walk_no_nested(dele.node) if isinstance(n, ast.Assign) and len(n.targets) == 1 and isinstance(n.targets[0], ast.Name)
+                               and n.targets[0].id == it.id]
+                    if len(assigns) != 1:
+                        return False
+                    v = assigns[0].value
+                    if isinstance(v, (ast.ListComp, ast.GeneratorExp, ast.Call)):
+                        return identity_keys(v, depth + 1)
+                    if isinstance(v, ast.List) and not v.elts:
+                        apps = [c for c in walk_no_nested(dele.node) if isinstance(c, ast.Call) and isinstance(c.func, ast.Attribute) and c.func.attr == 'append'
+                                and isinstance(c.func.value, ast.Name) and c.func.value.id == it.id]
+                        others = [c for c in walk_no_nested(dele.node) if isinstance(c, ast.Call) and isinstance(c.func, ast.Attribute)
+                                  and c.func.attr in ('extend', 'insert', 'remove', 'pop', 'clear') and isinstance(c.func.value, ast.Name) and c.func.value.id == it.id]
+                        if len(apps) != 1 or others:
+                            return False
+                        for lp in [n for n in walk_no_nested(dele.node) if isinstance(n, ast.For)]:
+                            if not any(x is apps[0] for x in ast.walk(lp)):
+                                continue
+                            if not (isinstance(lp.iter, ast.Call) and isinstance(lp.iter.func, ast.Attribute) and lp.iter.func.attr == 'items'
+                                    and access_path(lp.iter.func.value) == 'self.table_dict' and isinstance(lp.target, ast.Tuple) and len(lp.target.elts) == 2
+                                    and all(isinstance(e, ast.Name) for e in lp.target.elts)):
+                                return False
+                            kname, vname = [e.id for e in lp.target.elts]
+                            # the append sits directly under `if v is removed:` in the loop body
+                            for st_ in lp.body:
+                                if isinstance(st_, ast.If) and not st_.orelse and any(x is apps[0] for x in ast.walk(st_)):
+                                    c = term(st_.test, True)
+                                    ident = c[0] == 'is' and vname in c[1:] and (set(c[1:]) - {vname}) <= removed_vars
+                                    direct = len(st_.body) == 1 and isinstance(st_.body[0], ast.Expr) and st_.body[0].value is apps[0]
+                                    return bool(ident and direct and norm(apps[0].args[0]) == kname)
+                            return False
+                return False
+            unread_sweep = False
+            for loop in [n for n in walk_no_nested(dele.node) if isinstance(n, ast.For)]:
+                dels = [d for d in ast.walk(loop) if isinstance(d, ast.Delete) and any(isinstance(t, ast.Subscript) and access_path(t.value) == 'self.table_dict'
+                                                                                     and isinstance(loop.target, ast.Name) and norm(t.slice) == loop.target.id for t in d.targets)]
+                dels += [c for c in ast.walk(loop) if isinstance(c, ast.Call) and isinstance(c.func, ast.Attribute) and c.func.attr == 'pop'
+                         and access_path(c.func.value) == 'self.table_dict' and c.args and isinstance(loop.target, ast.Name) and norm(c.args[0]) == loop.target.id]
+                if not dels:
+                    continue
+                if identity_keys(loop.iter):
+                    by_identity = True
+                else:
+                    unread_sweep = True
             if by_identity:
                 col.ok('C09-paired', 'delete_table:full-name-key', 'every key whose value is the removed table is deleted (by identity)',
                        node=dele.node, file=dele.file)
                 col.ok('C09-paired', 'delete_table:alias-key', 'alias key removed with the same sweep', node=dele.node, file=dele.file)
                 continue
-            col.check(any(k.endswith('.full_name') for k in pops), 'C09-paired', 'delete_table:full-name-key',
-                      'removing a table from `tables` also removes its full-name key',
-                      f'a path of delete_table removes from self.tables but not the full-name key from table_dict (pops: {sorted(pops)})',
-                      node=dele.node, file=dele.file)
+            unresolved = sorted(k for k in pops if not k.endswith(('.full_name', '.alias')))
+            if any(k.endswith('.full_name') for k in pops):
+                col.ok('C09-paired', 'delete_table:full-name-key', 'removing a table from `tables` also removes its full-name key', node=dele.node, file=dele.file)
+            elif unread_sweep or unresolved:
+                col.unk('C09-paired', 'delete_table:full-name-key', f'delete_table removes keys from table_dict that this rule cannot relate to the removed table '
+                        f'(keys: {unresolved})', node=dele.node, file=dele.file)
+            else:
+                col.bad('C09-paired', 'delete_table:full-name-key',
+                        f'a path of delete_table removes from self.tables but not the full-name key from table_dict (pops: {sorted(pops)})', node=dele.node, file=dele.file)
             if any(l[0] == 'truthy' and l[1].endswith('.alias') for l in lits):
-                col.check(any(k.endswith('.alias') for k in pops), 'C09-paired', 'delete_table:alias-key',
-                          'the alias key is removed as well', 'a path of delete_table with an alias set leaves the alias key in table_dict',
-                          node=dele.node, file=dele.file)
+                if any(k.endswith('.alias') for k in pops):
+                    col.ok('C09-paired', 'delete_table:alias-key', 'the alias key is removed as well', node=dele.node, file=dele.file)
+                elif unread_sweep or unresolved:
+                    col.unk('C09-paired', 'delete_table:alias-key', 'the keys removed from table_dict cannot be related to the alias', node=dele.node, file=dele.file)
+                else:
+                    col.bad('C09-paired', 'delete_table:alias-key', 'a path of delete_table with an alias set leaves the alias key in table_dict',
+                            node=dele.node, file=dele.file)
         col.floor('C09-paired', 'removing paths of delete_table', n_pop, 1)
         # nobody else touches tables / table_dict
         for fi in idx.all_funcs():
